@@ -50,7 +50,8 @@ Kinds == {"file", "program"}
 \* head of the text in one pass over its lines and the rest in a second one) / the first line only
 \* / "notfirst": the text compared with a text held in memory - its own first line - which it equals only if it has
 \* no more than that line
-Observers == {"lines", "str", "file", "stdin", "tail", "head", "notfirst"}
+\* / "peek": a consumer that stops reading after the first line (any line : line-num == 1)
+Observers == {"lines", "str", "file", "stdin", "tail", "head", "notfirst", "peek"}
 
 RECURSIVE CountNL(_)
 CountNL(s) == IF s = <<>> THEN 0 ELSE (IF Head(s) = NL THEN 1 ELSE 0) + CountNL(Tail(s))
